@@ -8,8 +8,9 @@
                                       putJSONEncoder
      zapcore/console_encoder.go       getSliceEncoder, putSliceEncoder, EncodeEntry, writeContext
      zapcore/error.go  error.go       errArray.MarshalLogArray with the two errArrayElem pools
-     zapcore/entry.go                 getCheckedEntry, reset, AddCore, After, Write, putCheckedEntry,
-                                      EntryCaller.FullPath
+     zapcore/entry.go                 getCheckedEntry, reset, AddCore, After, Write (cores, error output,
+                                      the CheckWriteHook - which does its own logging before it looks
+                                      at the entry it is handed -, then putCheckedEntry), EntryCaller.FullPath
      zapcore/core.go  zapcore/tee.go  ioCore.Write (sink write, then Free), ioCore.With; ioCore.Check /
                                       multiCore.Check driven without a Logger (Check(ent, nil) + Write)
      internal/stacktrace/stack.go     Capture (First / Full with storage growth), Free, Take
@@ -74,12 +75,33 @@ Record entry := {
   en_caller : option (bytes * Z)      (* Caller.Defined: File, Line *)
 }.
 
+(* ------------------------------------------------------------------ *)
+(* fields, as far as pooling is concerned                             *)
+(* ------------------------------------------------------------------ *)
+(* PRaw covers every scalar Add* (the text is what strconv/time produced);
+   PObj is an ObjectMarshaler script: calls, then nil or an error. *)
+Inductive pf :=
+| PStr (k v : bytes)
+| PRaw (k raw : bytes)
+| PNs (k : bytes)                                  (* zap.Namespace *)
+| PRefl (k : bytes) (r : rv)                       (* zap.Reflect *)
+| PErr (k basic : bytes) (causes : list bytes)     (* zap.Error of an errorGroup: zapcore pool *)
+| PErrs (k : bytes) (es : list bytes)              (* zap.Errors: zap pool *)
+| PObj (k : bytes) (calls : list pf) (ret_err : option bytes).
+
+(* a zapcore.CheckWriteHook (zap.WithFatalHook / WithPanicHook, CheckedEntry.After / Should): user code
+   that is handed the *CheckedEntry after every core has written.  Before it looks at that entry it may
+   log on its own - each element of hk_nested is one Core.Check(ent, nil).Write(fs) over cores of its
+   own (a tee), which is what a Logger call without caller, stack and hook amounts to *)
+Definition ncall := (list core * entry * list pf)%type.
+Record hookd := { hk_id : nat; hk_nested : list ncall }.
+
 (* zapcore.CheckedEntry *)
 Record centry := {
   ce_ent : entry;
   ce_errout : bool;                   (* ErrorOutput != nil *)
   ce_dirty : bool;
-  ce_after : option nat;              (* CheckWriteHook *)
+  ce_after : option hookd;            (* CheckWriteHook *)
   ce_cores : list core
 }.
 
@@ -181,20 +203,6 @@ Definition buf_free (i : id) : M unit :=
            end.
 Definition getp (p : pid) : M (pty p) := fun s => Get p (fun o => Ret (o, s)).
 Definition putp (p : pid) (o : pty p) : M unit := fun s => Put p o (Ret (tt, s)).
-
-(* ------------------------------------------------------------------ *)
-(* fields, as far as pooling is concerned                             *)
-(* ------------------------------------------------------------------ *)
-(* PRaw covers every scalar Add* (the text is what strconv/time produced);
-   PObj is an ObjectMarshaler script: calls, then nil or an error. *)
-Inductive pf :=
-| PStr (k v : bytes)
-| PRaw (k raw : bytes)
-| PNs (k : bytes)                                  (* zap.Namespace *)
-| PRefl (k : bytes) (r : rv)                       (* zap.Reflect *)
-| PErr (k basic : bytes) (causes : list bytes)     (* zap.Error of an errorGroup: zapcore pool *)
-| PErrs (k : bytes) (es : list bytes)              (* zap.Errors: zap pool *)
-| PObj (k : bytes) (calls : list pf) (ret_err : option bytes).
 
 (* ------------------------------------------------------------------ *)
 (* zapcore/json_encoder.go                                            *)
@@ -543,7 +551,8 @@ Definition get_checked_entry : M centry := ce <- getp PCE ;; ret (ce_reset ce).
 Inductive event :=
 | SinkWrite (co : nat) (b : bytes)     (* the n-th core of the entry wrote these bytes *)
 | ErrOut                               (* internal error written to ErrorOutput *)
-| Hook (h : nat)                       (* CheckWriteHook fired *)
+| HookWrite (call co : nat) (b : bytes)  (* the hook's own logging: the co-th core of its call-th log call wrote these bytes *)
+| Hook (h : nat) (seen : entry)        (* CheckWriteHook h fired, and this is the entry it found in the CheckedEntry it was handed *)
 | Reuse.                               (* "Unsafe CheckedEntry re-use" *)
 
 Fixpoint write_cores (n : nat) (cores : list core) (ent : entry) (fs : list pf) : M (list event * bool) :=
@@ -555,23 +564,63 @@ Fixpoint write_cores (n : nat) (cores : list core) (ent : entry) (fs : list pf) 
       ret ((if co_fail co then [] else [SinkWrite n out]) ++ fst rest, co_fail co || snd rest)
   end.
 
-(* CheckedEntry.Write *)
-Definition ce_write (ce : centry) (fs : list pf) : M (list event) :=
+(* CheckedEntry.Write.  [run] is the logging the hook does before it looks at the entry:
+     for i := range ce.cores { err = multierr.Append(err, ce.cores[i].Write(ce.Entry, fields)) }
+     if err != nil && ce.ErrorOutput != nil { ... }
+     hook := ce.after; if hook != nil { hook.OnWrite(ce, fields) }
+     putCheckedEntry(ce)
+   The entry goes back to the pool when its last user, the hook, is done with it: while the hook runs
+   (and logs) the pool cannot hand this object to anybody. *)
+Definition ce_write_with (run : list ncall -> M (list event)) (ce : centry) (fs : list pf) : M (list event) :=
   if ce_dirty ce then ret (if ce_errout ce then [Reuse] else [])
   else
     r <- write_cores 0 (ce_cores ce) (ce_ent ce) fs ;;
-    let evs := fst r ++ (if snd r && ce_errout ce then [ErrOut] else []) ++
-               (match ce_after ce with Some h => [Hook h] | None => [] end) in
+    hev <- (match ce_after ce with
+            | Some h => n <- run (hk_nested h) ;; ret (n ++ [Hook (hk_id h) (ce_ent ce)])
+            | None => ret []
+            end) ;;
+    let evs := fst r ++ (if snd r && ce_errout ce then [ErrOut] else []) ++ hev in
     putp PCE {| ce_ent := ce_ent ce; ce_errout := ce_errout ce; ce_dirty := true;
                 ce_after := ce_after ce; ce_cores := ce_cores ce |} ;;;
     ret evs.
+
+(* Core.Check(ent, nil) + [After(ent, hook)] + CheckedEntry.Write with NO zap.Logger around it
+   (ioCore.Check / multiCore.Check: ce.AddCore(ent, c) for each enabled core; this is how exp/zapslog's
+   Handler and every direct zapcore user drive a core).  Nothing on this path assigns ErrorOutput, and
+   the hook only if After is called: whatever reset() leaves in the recycled entry is what Write sees. *)
+Definition check_call_with (run : list ncall -> M (list event))
+    (cores : list core) (hook : option hookd) (ent : entry) (fs : list pf) : M (list event) :=
+  match cores, hook with
+  | [], None => ret []                                         (* ce == nil: Write is a no-op *)
+  | _, _ =>
+      ce0 <- get_checked_entry ;;                                (* first AddCore / After: getCheckedEntry(); ce.Entry = ent *)
+      ce_write_with run {| ce_ent := ent; ce_errout := ce_errout ce0; ce_dirty := ce_dirty ce0;
+                           ce_after := (match hook with Some h => Some h | None => ce_after ce0 end);
+                           ce_cores := ce_cores ce0 ++ cores |} fs
+  end.
+
+(* the hook's own log calls: entries of their own (taken from the same pool while the outer entry is
+   still in use), no hook of their own *)
+Definition relabel (call : nat) (ev : event) : event :=
+  match ev with SinkWrite co b => HookWrite call co b | _ => ev end.
+Fixpoint run_nested (call : nat) (l : list ncall) : M (list event) :=
+  match l with
+  | [] => ret []
+  | (cores, ent, fs) :: r =>
+      evs <- check_call_with (fun _ => ret []) cores None ent fs ;;
+      rest <- run_nested (S call) r ;;
+      ret (map (relabel call) evs ++ rest)
+  end.
+
+Definition ce_write : centry -> list pf -> M (list event) := ce_write_with (run_nested 0).
+Definition check_call : list core -> option hookd -> entry -> list pf -> M (list event) := check_call_with (run_nested 0).
 
 Definition set_ent (ce : centry) (e : entry) : centry :=
   {| ce_ent := e; ce_errout := ce_errout ce; ce_dirty := ce_dirty ce; ce_after := ce_after ce; ce_cores := ce_cores ce |}.
 
 (* a logger: enabled cores (multiCore.Check adds each), terminal hook of the level, caller/stack options *)
 Record logger := {
-  l_cores : list core; l_hook : option nat; l_errout : bool;
+  l_cores : list core; l_hook : option hookd; l_errout : bool;
   l_caller : bool; l_stack : bool
 }.
 
@@ -616,20 +665,6 @@ Definition log_call (lg : logger) (ent : entry) (cs : list pc) (fs : list pf) : 
                 end
             end
       end
-  end.
-
-(* Core.Check(ent, nil) + [After(ent, hook)] + CheckedEntry.Write with NO zap.Logger around it
-   (ioCore.Check / multiCore.Check: ce.AddCore(ent, c) for each enabled core; this is how exp/zapslog's
-   Handler and every direct zapcore user drive a core).  Nothing on this path assigns ErrorOutput, and
-   the hook only if After is called: whatever reset() leaves in the recycled entry is what Write sees. *)
-Definition check_call (cores : list core) (hook : option nat) (ent : entry) (fs : list pf) : M (list event) :=
-  match cores, hook with
-  | [], None => ret []                                         (* ce == nil: Write is a no-op *)
-  | _, _ =>
-      ce0 <- get_checked_entry ;;                                (* first AddCore / After: getCheckedEntry(); ce.Entry = ent *)
-      ce_write {| ce_ent := ent; ce_errout := ce_errout ce0; ce_dirty := ce_dirty ce0;
-                  ce_after := (match hook with Some h => Some h | None => ce_after ce0 end);
-                  ce_cores := ce_cores ce0 ++ cores |} fs
   end.
 
 (* ================================================================== *)
@@ -757,19 +792,34 @@ Definition p_log_entry (lg : logger) (ent : entry) (cs : list pc) : entry :=
                en_caller := if l_caller lg then Some (print_Z (Z.of_nat frame), Z.of_nat frame) else en_caller ent |}
         end
   end.
+(* what a terminal hook makes observable: the lines of its own log calls (each core of each call
+   writes that call's entry once), then the entry it finds in the CheckedEntry it was handed - which is
+   the entry that was logged, whatever the hook logged meanwhile *)
+Fixpoint p_nested (call : nat) (l : list ncall) : list event :=
+  match l with
+  | [] => []
+  | (cores, ent, fs) :: r =>
+      map (relabel call) (fst (p_write_cores 0 cores ent fs)) ++ p_nested (S call) r
+  end.
+Definition p_hook (hook : option hookd) (logged : entry) : list event :=
+  match hook with
+  | Some h => p_nested 0 (hk_nested h) ++ [Hook (hk_id h) logged]
+  | None => []
+  end.
+
 Definition p_log (lg : logger) (ent : entry) (cs : list pc) (fs : list pf) : list event :=
   match l_cores lg, l_hook lg with
   | [], None => []
   | _, _ =>
       let r := p_write_cores 0 (l_cores lg) (p_log_entry lg ent cs) fs in
       fst r ++ (if snd r && (match l_cores lg with [] => false | _ => l_errout lg end) then [ErrOut] else []) ++
-      (match l_hook lg with Some h => [Hook h] | None => [] end)
+      p_hook (l_hook lg) (p_log_entry lg ent cs)
   end.
 
 (* a bare Check + Write: every core handed in writes the entry once, the hook handed in (if any)
-   fires once; no error output (none was configured), no other hook, no other core *)
-Definition p_check (cores : list core) (hook : option nat) (ent : entry) (fs : list pf) : list event :=
-  fst (p_write_cores 0 cores ent fs) ++ (match hook with Some h => [Hook h] | None => [] end).
+   fires once, on this entry; no error output (none was configured), no other hook, no other core *)
+Definition p_check (cores : list core) (hook : option hookd) (ent : entry) (fs : list pf) : list event :=
+  fst (p_write_cores 0 cores ent fs) ++ p_hook hook ent.
 
 (* ================================================================== *)
 (* operations of a history                                            *)
@@ -779,7 +829,7 @@ Inductive op :=
 | OWith (e : enc) (fs : list pf)                                (* Core.With / Logger.With *)
 | OLog (lg : logger) (ent : entry) (cs : list pc) (fs : list pf)  (* Logger.Info ... : check + Write *)
 | OTake (cs : list pc)                                          (* zap.Stack *)
-| OCheck (cores : list core) (hook : option nat) (ent : entry) (fs : list pf).  (* Core.Check(ent, nil) [.After] .Write, no Logger *)
+| OCheck (cores : list core) (hook : option hookd) (ent : entry) (fs : list pf).  (* Core.Check(ent, nil) [.After] .Write, no Logger *)
 
 Inductive out := OutBytes (b : bytes) | OutEnc (e : enc) | OutEvents (l : list event).
 
@@ -958,7 +1008,9 @@ Definition minit (progs : list (list op)) : machine :=
             to the pooled operations of this model: (k a b c d e f)   k: 0 JSON write, 1 console
             write, 2 With, 3 Logger call, 4 zap.Stack, 5 GC, 6 Core.Check + Write without a Logger (f odd:
             one of the two cores has a failing sink, f/2 odd: After(hook)); a plain fields, b reflected ok,
-            c reflected failing, d namespaces, e error-group size, f flags/depth
+            c reflected failing, d namespaces, e error-group size, f flags/depth; an optional eighth
+            element h > 0 (kinds 3 and 6): the entry is a terminal one whose CheckWriteHook makes h-1 log
+            calls of its own (through a tee of a JSON and a console core) before it looks at its entry
      adv    the adversary's choices for the model run
      aprobe the observed probe, abstracted the same way
      act    (name n): what the probe's sinks did on OTHER loggers while they were inside Write
@@ -982,6 +1034,16 @@ Definition mk_fields (a b c d e f : nat) : list pf :=
   (if Nat.odd f then [PObj kx [PNs kx; PRefl kx (ROk vx); PStr kx vx] (Some vx)] else []) ++
   repeat (PNs kx) d.
 
+Definition wire_ent2 : entry := {| en_lvl := [x77]; en_name := [x61]; en_msg := [x68; x6b]; en_stack := []; en_caller := None |}.
+Definition wire_hook (h : nat) (dflt : option hookd) : option hookd :=
+  match h with
+  | 0 => dflt
+  | S k => Some {| hk_id := 2;
+                   hk_nested := repeat ([{| co_enc := wire_enc false; co_console := false; co_fail := false |};
+                                         {| co_enc := wire_enc true; co_console := true; co_fail := false |}],
+                                        wire_ent2, [PStr kx vx; PRefl kx (ROk vx)]) k |}
+  end.
+
 Definition dec_hitem (s : sx) : hitem :=
   let n i := sx_n (sx_nth s i) in
   let fs := mk_fields (n 1) (n 2) (n 3) (n 4) (n 5) (n 6) in
@@ -991,12 +1053,12 @@ Definition dec_hitem (s : sx) : hitem :=
   | 2 => HOp (OWith (wire_enc (Nat.odd (n 6))) fs)
   | 3 => HOp (OLog {| l_cores := [{| co_enc := wire_enc false; co_console := false; co_fail := false |};
                                   {| co_enc := wire_enc true; co_console := true; co_fail := Nat.odd (n 6) |}];
-                      l_hook := None; l_errout := true; l_caller := Nat.odd (n 6 / 2); l_stack := Nat.odd (n 6 / 4) |}
+                      l_hook := wire_hook (n 7) None; l_errout := true; l_caller := Nat.odd (n 6 / 2); l_stack := Nat.odd (n 6 / 4) |}
                    wire_ent (seq 1 (n 6 / 8)) fs)
   | 4 => HOp (OTake (seq 1 (n 6)))
   | 6 => HOp (OCheck [{| co_enc := wire_enc false; co_console := false; co_fail := false |};
                       {| co_enc := wire_enc true; co_console := true; co_fail := Nat.odd (n 6) |}]
-                     (if Nat.odd (n 6 / 2) then Some 1 else None) wire_ent fs)
+                     (wire_hook (n 7) (if Nat.odd (n 6 / 2) then Some {| hk_id := 1; hk_nested := [] |} else None)) wire_ent fs)
   | _ => HGC
   end.
 
@@ -1004,7 +1066,14 @@ Definition out_bytes (o : out) : bytes :=
   match o with
   | OutBytes b => b
   | OutEnc e => e_buf e
-  | OutEvents l => concat (map (fun ev => match ev with SinkWrite _ b => b | ErrOut => [x45] | Hook _ => [x48] | Reuse => [x52] end) l)
+  | OutEvents l =>
+      concat (map (fun ev => match ev with
+                             | SinkWrite _ b => b | ErrOut => [x45] | Reuse => [x52]
+                             | HookWrite _ _ b => x68 :: b
+                             | Hook _ e =>      (* what the hook saw: level, name, message, stack, caller *)
+                                 [x48] ++ en_lvl e ++ [x00] ++ en_name e ++ [x00] ++ en_msg e ++ [x00] ++ en_stack e ++ [x00] ++
+                                 (match en_caller e with Some (f, l) => f ++ [COLON] ++ print_Z l | None => [] end)
+                             end) l)
   end.
 
 (* run the pooled model: the probe after the history and in the initial state give the same
